@@ -185,6 +185,7 @@ PROPS["C01"] = dict(
     subs=[
         R("C01.mem_stacks", "swarms", "TestC01Mem", 300, 12000, shrink=10, quick=dict(checks=300, shards=4, timeout=600)),
         R("C01.secure_and_udp_stacks", "swarms", "TestC01Net", 40, 1500, shrink=10, quick=dict(checks=40, shards=4, timeout=600)),
+        R("C01.address_takeover", "secure", "TestC01AddressTakeover", 36, 1500, quick=dict(shards=3, timeout=600)),
     ],
 )
 
@@ -317,5 +318,6 @@ PROPS["C04"] = dict(
         R("C04.p2pke_quic_attribution", "secure", "TestC04Attribution", 120, 5000, shrink=10, quick=dict(checks=120, shards=4, timeout=900)),
         R("C04.p2pke_claimed_key_adversary", "secure", "TestC04P2PKEForger", 300, 15000, shrink=10, quick=dict(checks=300, shards=2, timeout=600)),
         R("C04.ssh_auth_step_adversary", "secure", "TestC04SSHAdversary", 60, 3000, shrink=10, quick=dict(checks=60, shards=2, timeout=600)),
+        R("C04.address_takeover", "secure", "TestC04AddressTakeover", 36, 1500, quick=dict(shards=3, timeout=600)),
     ],
 )
